@@ -2,6 +2,7 @@ package main
 
 import (
 	"fmt"
+	"go/token"
 	"sort"
 	"strings"
 
@@ -23,6 +24,40 @@ type Terminal struct {
 	Instr ssa.Instruction
 	Path  []*ssa.BasicBlock
 	Calls []ssa.CallInstruction // calls passed on the way, in order
+	// Rets: for every call that was inlined on the way, the value(s) it returned on the path taken inside it
+	// (already resolved along that inner path)
+	Rets map[ssa.Value][]ssa.Value
+}
+
+// deep resolves v to the value it holds on the path walked: phis along the path, results of inlined calls
+// through the return taken, parameters of inlined callees through the arguments bound at the call (subst).
+func (t Terminal) deep(v ssa.Value, subst map[ssa.Value]ssa.Value) ssa.Value {
+	for i := 0; i < 24; i++ {
+		v = resolveAlong(v, t.Path)
+		switch x := v.(type) {
+		case *ssa.MakeInterface:
+			v = x.X
+			continue
+		case *ssa.ChangeType:
+			v = x.X
+			continue
+		case *ssa.Extract:
+			if rs, ok := t.Rets[x.Tuple]; ok && x.Index < len(rs) {
+				v = rs[x.Index]
+				continue
+			}
+		}
+		if rs, ok := t.Rets[v]; ok && len(rs) > 0 {
+			v = rs[0]
+			continue
+		}
+		if w, ok := subst[v]; ok && w != v {
+			v = w
+			continue
+		}
+		return v
+	}
+	return v
 }
 
 // walkDecision walks fn from block `start` under `assign`. stop may end the walk at an instruction.
@@ -37,18 +72,19 @@ func walkDecisionInl(start *ssa.BasicBlock, assign map[string]bool, atomize Atom
 	inline func(ssa.CallInstruction) *ssa.Function, subst map[ssa.Value]ssa.Value, depth int) Terminal {
 	var path []*ssa.BasicBlock
 	var calls []ssa.CallInstruction
+	rets := map[ssa.Value][]ssa.Value{}
 	visits := map[*ssa.BasicBlock]int{}
 	b := start
 	for {
 		path = append(path, b)
 		visits[b]++
 		if visits[b] > 2 {
-			return Terminal{Kind: "loop", Path: path, Calls: calls}
+			return Terminal{Kind: "loop", Path: path, Calls: calls, Rets: rets}
 		}
 		for _, in := range b.Instrs {
 			if stop != nil {
 				if lbl, ok := stop(in); ok {
-					return Terminal{Kind: "stop:" + lbl, Label: lbl, Instr: in, Path: path, Calls: calls}
+					return Terminal{Kind: "stop:" + lbl, Label: lbl, Instr: in, Path: path, Calls: calls, Rets: rets}
 				}
 			}
 			if c, ok := in.(ssa.CallInstruction); ok {
@@ -64,19 +100,30 @@ func walkDecisionInl(start *ssa.BasicBlock, assign map[string]bool, atomize Atom
 						}
 						t := walkDecisionInl(cal.Blocks[0], assign, atomize, stop, inline, subst, depth+1)
 						calls = append(calls, t.Calls...)
+						for k, v := range t.Rets {
+							rets[k] = v
+						}
 						if t.Kind != "return" {
 							t.Calls = calls
 							t.Path = append(append([]*ssa.BasicBlock(nil), path...), t.Path...)
+							t.Rets = rets
 							return t
+						}
+						if cv := c.Value(); cv != nil {
+							var rs []ssa.Value
+							for _, rv := range t.Instr.(*ssa.Return).Results {
+								rs = append(rs, t.deep(rv, nil))
+							}
+							rets[cv] = rs
 						}
 					}
 				}
 			}
 			switch x := in.(type) {
 			case *ssa.Return:
-				return Terminal{Kind: "return", Instr: x, Path: path, Calls: calls}
+				return Terminal{Kind: "return", Instr: x, Path: path, Calls: calls, Rets: rets}
 			case *ssa.Panic:
-				return Terminal{Kind: "panic", Instr: x, Path: path, Calls: calls}
+				return Terminal{Kind: "panic", Instr: x, Path: path, Calls: calls, Rets: rets}
 			case *ssa.Jump:
 				b = b.Succs[0]
 			case *ssa.If:
@@ -89,6 +136,46 @@ func walkDecisionInl(start *ssa.BasicBlock, assign map[string]bool, atomize Atom
 						b = b.Succs[1]
 					}
 					continue
+				}
+				// a comparison whose operands are constants once the parameters of an inlined callee are bound
+				if bo, ok := cond.(*ssa.BinOp); ok && subst != nil {
+					cv := func(v ssa.Value) (int64, bool) {
+						for i := 0; i < 6; i++ {
+							if w, ok := subst[v]; ok {
+								v = w
+								continue
+							}
+							break
+						}
+						return constInt(v)
+					}
+					if xv, ok1 := cv(bo.X); ok1 {
+						if yv, ok2 := cv(bo.Y); ok2 {
+							var res, known bool
+							switch bo.Op {
+							case token.EQL:
+								res, known = xv == yv, true
+							case token.NEQ:
+								res, known = xv != yv, true
+							case token.LSS:
+								res, known = xv < yv, true
+							case token.LEQ:
+								res, known = xv <= yv, true
+							case token.GTR:
+								res, known = xv > yv, true
+							case token.GEQ:
+								res, known = xv >= yv, true
+							}
+							if known {
+								if res != neg {
+									b = b.Succs[0]
+								} else {
+									b = b.Succs[1]
+								}
+								continue
+							}
+						}
+					}
 				}
 				// a phi that the atomizer itself names (e.g. the value picked by a loop) is an atom
 				if _, isPhi := cond.(*ssa.Phi); isPhi {
@@ -128,11 +215,11 @@ func walkDecisionInl(start *ssa.BasicBlock, assign map[string]bool, atomize Atom
 						}
 						continue
 					}
-					return Terminal{Kind: "unknown:" + c3.String(), Instr: x, Path: path, Calls: calls}
+					return Terminal{Kind: "unknown:" + c3.String(), Instr: x, Path: path, Calls: calls, Rets: rets}
 				}
 				val, has := assign[atom]
 				if !has {
-					return Terminal{Kind: "unassigned:" + atom, Instr: x, Path: path, Calls: calls}
+					return Terminal{Kind: "unassigned:" + atom, Instr: x, Path: path, Calls: calls, Rets: rets}
 				}
 				if val != neg {
 					b = b.Succs[0]
